@@ -14,6 +14,8 @@
 (*                                       the source under ITS read lock    *)
 (*                               step 2: validate + apply under the        *)
 (*                                       destination's write lock          *)
+(*   RawHeads, result kept       step 1: the call; step 2: the caller reads *)
+(*                               what it was handed                        *)
 (*   ToMultihash                 step 1: enter; step 2: RawHeads (empty    *)
 (*                               log => error); step 3: ToJSONLog + write  *)
 (* No step takes a lock of one log while holding a lock of another, and    *)
@@ -140,8 +142,16 @@ Step(i) ==
             /\ DoApply(o.r, snap[i])
             /\ Finish(i, [k |-> "ok"])
             /\ UNCHANGED snap
-       [] o.op = "R" ->
+       [] o.op = "R" /\ o.acc # "RawHeadsHeld" ->
             /\ Finish(i, Proj(o.r))
+            /\ UNCHANGED <<logv, snap>>
+       \* a caller that keeps what RawHeads() handed out and looks at it later: it still is what it was
+       [] o.op = "R" /\ o.acc = "RawHeadsHeld" /\ pc[i] = 0 ->
+            /\ snap' = [snap EXCEPT ![i] = Src(o.r)]
+            /\ Stay(i) /\ UNCHANGED logv
+       [] o.op = "R" /\ o.acc = "RawHeadsHeld" /\ pc[i] = 1 ->
+            /\ Finish(i, [k |-> "state", ents |-> snap[i].ents, heads |-> SeqRange(snap[i].heads),
+                          values |-> ValuesOf(U, Fn, snap[i].ents, snap[i].heads)])
             /\ UNCHANGED <<logv, snap>>
        [] o.op = "P" /\ pc[i] = 0 -> Stay(i) /\ UNCHANGED <<logv, snap>>
        [] o.op = "P" /\ pc[i] = 1 ->
